@@ -14,7 +14,7 @@ RULE = ("literals: every digit string of length <= 4 with at most one inner dot 
 MAXD = gen.MAXD
 OPS = ["+", "-", "*", "%", "<", "<=", ">", ">=", "==", "!="]
 TRAPS = ["0.1", "0.2", "0.3", "1.1", "2.675", "0.0000000000000000000000000001", "1.10", "1.100", "007", "0.0", "00.50", "9007199254740993", "79228162514264337593543950335", "7.9228162514264337593543950335", "0.7", "1.15", "4.35", "1234567890.123456789"]
-BAD = ["1.2.3", "1..2", "1.2.", "12e", "1e+", "1e-", "1.5.", "0.1.2", "1.2e", "3.e", "1.2.3.4", "0..", "5e+-2", "1e5e5"]
+BAD = ["0.0000000000000000000000000001.", "0.0000000000000000000000000001.2.3", "12345678901234567890123456789.1.1", "0.0000000000000000000000000001e5", "79228162514264337593543950335.5.", "1.2.3", "1..2", "1.2.", "12e", "1e+", "1e-", "1.5.", "0.1.2", "1.2e", "3.e", "1.2.3.4", "0..", "5e+-2", "1e5e5"]
 
 
 def lit_parts(text):
